@@ -152,7 +152,9 @@ func genSpelledPair(t *rapid.T) pairCase {
 		a = gen.Name(t, o)
 	}
 	var b wm.Name
-	switch rapid.IntRange(0, 4).Draw(t, "rel") {
+	switch rapid.IntRange(0, 5).Draw(t, "rel") {
+	case 3:
+		b = affixPair(t, a) // a piece or an extension of one label of a in front of the labels behind it
 	case 0:
 		if rich {
 			b = digitRichName(t, 4)
